@@ -213,3 +213,14 @@ U(id="C01.rc.dbits", props=["C01", "C14", "C06", "C15"], file="range_dec.rs", ha
   functions=[("src/range_dec.rs", "decode_direct_bits"), ("src/range_dec.rs", "read_u8", "RangeReader for RangeDecoderBuffer"), ("src/range_dec.rs", "is_finished")],
   assumptions=["inline-asm decode_direct_bits_x86_64/aarch64 are outside Kani and Verus: only the portable loop is verified (against the reference loop the source documents)"],
   contract="portable decode_direct_bits = the documented reference loop for every state with code<range and count<=26 (result, range, code, bytes pulled); buffer reader: out-of-range reads give 0 and make is_finished false")
+
+BCJ_SPLIT = {'x86': ['c07_bcj_x86_split_k5_enc', 'c07_bcj_x86_split_k5_dec', 'c07_bcj_x86_split_k6_enc', 'c07_bcj_x86_split_k6_dec', 'c07_bcj_x86_split_k7_enc', 'c07_bcj_x86_split_k7_dec', 'c07_bcj_x86_split_k8_enc', 'c07_bcj_x86_split_k8_dec', 'c07_bcj_x86_split_k9_enc', 'c07_bcj_x86_split_k9_dec'], 'arm': ['c07_bcj_arm_split_k5_enc', 'c07_bcj_arm_split_k5_dec', 'c07_bcj_arm_split_k6_enc', 'c07_bcj_arm_split_k6_dec'], 'thumb': ['c07_bcj_thumb_split_k5_enc', 'c07_bcj_thumb_split_k5_dec', 'c07_bcj_thumb_split_k6_enc', 'c07_bcj_thumb_split_k6_dec'], 'arm64': ['c07_bcj_arm64_split_k6_enc', 'c07_bcj_arm64_split_k6_dec'], 'ppc': ['c07_bcj_ppc_split_k6_enc', 'c07_bcj_ppc_split_k6_dec'], 'sparc': ['c07_bcj_sparc_split_k7_enc', 'c07_bcj_sparc_split_k7_dec'], 'ia64': ['c07_bcj_ia64_split_k20_enc', 'c07_bcj_ia64_split_k20_dec'], 'riscv': ['c07_bcj_riscv_split_k9_enc', 'c07_bcj_riscv_split_k9_dec', 'c07_bcj_riscv_split_k10_enc', 'c07_bcj_riscv_split_k10_dec']}
+BCJ_SPLIT_QUICK = {"x86": ["c07_bcj_x86_split_k5_dec", "c07_bcj_x86_split_k6_dec", "c07_bcj_x86_split_k6_enc"], "riscv": ["c07_bcj_riscv_split_k10_enc", "c07_bcj_riscv_split_k10_dec"]}
+for arch, hs_all in BCJ_SPLIT.items():
+    hs = BCJ_SPLIT_QUICK.get(arch, hs_all)
+    fl = {"arm": "arm.rs", "thumb": "arm.rs", "arm64": "arm.rs", "ppc": "ppc.rs", "sparc": "sparc.rs", "x86": "x86.rs", "ia64": "ia64.rs", "riscv": "riscv.rs"}[arch]
+    U(id="C07.bcj.code." + arch, props=["C07", "C11"], file="filter/bcj/" + fl, extra_files=["filter/bcj.rs"], harnesses=hs, stubs=[],
+      thorough_harnesses=[h for h in hs_all if h not in hs],
+      kind="bounded", bound="streams of 10..34 arbitrary bytes cut at the listed offsets, every aligned start < 2^40, both directions",
+      functions=[("src/filter/bcj/" + fl, {"arm": "arm_code", "thumb": "arm_thumb_code", "arm64": "arm64_code", "ppc": "ppc_code", "sparc": "sparc_code", "x86": "x86_code", "ia64": "ia64_code", "riscv": "riscv_code"}[arch])],
+      contract="filtering a stream in one call = filtering a prefix, then the unconverted tail re-presented with the rest: same bytes, same final position, same carried state (x86 prev_mask)")
